@@ -316,6 +316,14 @@ func ApplyExt(w *WS, e *Ext, s Step) string {
 		e.SlowSec[id] = 40
 		return "slow " + t.Label()
 	case "set-skipout":
+		// prefer a target with several outputs: a missing output that is not the last one declared is the interesting case
+		for k := 0; k < len(w.Targets); k++ {
+			cand := w.target(s.T + k)
+			if len(cand.OutFiles) > 0 && len(cand.OutFiles)+len(cand.OutDirs) >= 2 {
+				t, id = cand, cand.ID()
+				break
+			}
+		}
 		if len(t.OutFiles) == 0 {
 			return ""
 		}
